@@ -39,6 +39,16 @@ def bases():
     out["verilog:late"] = (".v", vw.render(c06.base_vad(), alt="late"))
     out["edif:E9-rich"] = (".edf", edif_writer.render(fdesigns.BASES["E9"](), rich=True))
     out["eblif:B7"] = (".eblif", ew.render(c18.base("B7"), comments=True))
+    # every library, cell, port and instance carries an identifier of its own next to its (legal) name
+    e3 = fdesigns.BASES["E3"]()
+    for lib in e3["libs"]:
+        lib["id"] = lib["name"] + "_LID"
+        for d in lib["defs"]:
+            d["id"] = d["name"] + "_CID"
+            for el in list(d["ports"]) + list(d.get("insts", ())):
+                if re.match(r"^[A-Za-z][A-Za-z0-9_]*$", el["name"]):
+                    el["id"] = el["name"] + "_EID"
+    out["edif:E3-own-identifiers"] = (".edf", edif_writer.render(e3))
     return out
 
 
@@ -62,7 +72,16 @@ def declared_names(ext, tokens):
     for a, b in zip(tokens, tokens[1:]):
         if a.lower() in kw and b not in out and b not in ("(", ")"):
             out.append(b.strip())
-    return out[:6]
+    out = out[:6]
+    if ext == ".edf":
+        # original names given by (rename identifier "name"): a reference spelled like a *name* names nothing
+        more = []
+        for a, b, c in zip(tokens, tokens[1:], tokens[2:]):
+            nm = c.strip('"')
+            if a.lower() == "rename" and c.startswith('"') and nm != b and re.match(r"^[A-Za-z][A-Za-z0-9_]*$", nm) and nm not in out + more:
+                more.append(nm)
+        out += more[:6]
+    return out
 
 
 def faulted(tokens, sep, kind, i, repl=None):
@@ -288,7 +307,8 @@ def file_fault_worker(case):
 def handle_worker(case):
     """the same text handed to a reader as an open handle (text / binary file, in-memory text / bytes), intact and cut
     in the middle: the reader terminates; when it returns a netlist that netlist is the one the file name gives."""
-    _, which, hkind, cut = case
+    _, which, hkind, cut = case[:4]
+    switch = case[4] if len(case) > 4 else None   # the policy is changed between making the reader and running it
     import io
     core.reset_world()
     s = core.sdn()
@@ -318,6 +338,8 @@ def handle_worker(case):
              "StringIO": lambda: io.StringIO(text), "BytesIO": lambda: io.BytesIO(text.encode())}[hkind]()
         try:
             p = cls.from_file_handle(h)
+            if switch:
+                s.namespace_manager.default = switch
             p.parse()
             return p.netlist
         finally:
@@ -325,7 +347,13 @@ def handle_worker(case):
                 h.close()
             except Exception:
                 pass
+    if switch:
+        s.namespace_manager.default = "EDIF" if switch == "DEFAULT" else "DEFAULT"   # in force when the reader is made
+        tag += ":policy-switched-to-%s-before-the-run" % switch
     outcome, n = guarded_call(go)
+    if switch and outcome != "hang" and s.namespace_manager.default != switch:
+        probs.append(("process-residue-after-%s:default:%s" % ("rejection" if outcome.startswith("raised") else "parse", tag),
+                      "the policy in force when parse() was called was %s, afterwards it is %s" % (switch, s.namespace_manager.default)))
     if outcome == "hang":
         probs.append(("reader-hangs:" + tag, which))
     elif outcome == "ok" and n is not None:
@@ -462,6 +490,9 @@ def cases(tier):
         for hkind in ("text-file", "binary-file", "StringIO", "BytesIO"):
             for cut in (False, True):
                 out.append(("handle", which, hkind, cut))
+                if hkind in ("text-file", "StringIO"):
+                    out.append(("handle", which, hkind, cut, "EDIF"))
+                    out.append(("handle", which, hkind, cut, "DEFAULT"))
     # the same faults with the EDIF policy in force before the call (the Verilog reader switches to DEFAULT)
     for c in list(out):
         if c[0] in ("verilog", "eblif") and len(c) == 6 and (tier == "thorough" or c[2] in ("truncate", "delete")):
